@@ -124,6 +124,50 @@ class FakeRay:
         return vals[0] if single else vals
 
 
+def _scalar_values(call):
+    """The per-snapshot values: the scalar function applied snapshot by snapshot."""
+    import pydrex.diagnostics as pdiag
+    from pydrex import geometry as geo
+
+    system = getattr(geo.LatticeSystem, call["system"])
+    out = []
+    for s in build_stack(call["stack"]):
+        try:
+            out.append(float(pdiag.misorientation_index(s, system, call["bins"])))
+        except Exception as e:  # noqa: BLE001
+            return {"exc": type(e).__name__}
+    return {"values": out}
+
+
+def _pristine_scalar_values(call):
+    """Evaluate the scalar function in a child forked from the state this run started in,
+    i.e. with no batched call and no other lattice system evaluated before: if the scalar
+    function is the pure function it is documented to be, this changes nothing; if a change
+    gives it (or the worker function) memory, long-lived workers and the caller drift apart
+    from these values."""
+    import os
+    import pickle
+
+    r, w = os.pipe()
+    pid = os.fork()
+    if pid == 0:
+        try:
+            os.close(r)
+            try:
+                res = _scalar_values(call)
+            except BaseException as e:  # noqa: BLE001
+                res = {"exc": "child:" + type(e).__name__}
+            with os.fdopen(w, "wb") as fh:
+                fh.write(pickle.dumps(res))
+        finally:
+            os._exit(0)
+    os.close(w)
+    with os.fdopen(r, "rb") as fh:
+        data = fh.read()
+    os.waitpid(pid, 0)
+    return pickle.loads(data) if data else {"exc": "child died"}
+
+
 def execute(scn):
     boot()
     verdicts, c = [], {}
@@ -132,7 +176,10 @@ def execute(scn):
     sigs = []
     any_reordered = False
     states = set()
+    # expected values of every call first, each from the pristine state of this run
+    pristine = [_pristine_scalar_values(call) for call in scn["calls"]]
     for k, call in enumerate(scn["calls"]):
+        call = dict(call, _expected=pristine[k])
         r = _one_call(call, k, shared_pool, verdicts, c)
         h.update(r["digest"].encode())
         sigs.append(r["sig"])
@@ -156,15 +203,10 @@ def _one_call(scn, k, shared_pool, verdicts, c):
     system = getattr(geo.LatticeSystem, scn["system"])
     stack = build_stack(scn["stack"])
     bins = scn["bins"]
-    # expected: the scalar function, snapshot by snapshot, in order
-    expected = []
-    scalar_exc = None
-    for s in stack:
-        try:
-            expected.append(pdiag.misorientation_index(s, system, bins))
-        except Exception as e:  # noqa: BLE001
-            scalar_exc = type(e).__name__
-            break
+    # expected: the scalar function, snapshot by snapshot, in order (pristine state)
+    exp_doc = scn.get("_expected") or _scalar_values(scn)
+    expected = exp_doc.get("values", [])
+    scalar_exc = exp_doc.get("exc")
     log = {}
     submitted_items = []
 
@@ -353,7 +395,8 @@ COMPONENTS = {
              "Ray (ray.put / ray.get / .remote) in the runs that take the Ray branch"],
     "uncontrolled_supplement": "real multiprocessing.Pool with 1, 2, 3, 7, 16 workers and an external pool, run once per invocation in the parent; runtime observation, excluded from digests",
 }
-ASSUMPTIONS = ["batched clause only; the scalar clauses of C14 are pure functions and not decided here",
+ASSUMPTIONS = ["the per-snapshot values are the scalar function evaluated in a child forked from the state the run started in (no other call, no other lattice system evaluated before)",
+               "batched clause only; the scalar clauses of C14 are pure functions and not decided here",
                "SimPool models the documented ordering guarantees of multiprocessing.Pool, it does not execute a real pool",
                "lattice systems on which the scalar function raises on the unchanged tree (rhombohedral: AssertionError) are counted, not compared"]
 PROBES = ["external_pool_reused", "history_len.3", "path.pool", "path.ncpus", "path.ray", "completion_order_differs_from_submission",
@@ -365,12 +408,12 @@ def warmup():
     import pydrex.diagnostics as pdiag
     from pydrex import geometry as geo
 
+    # one lattice system is enough to compile everything (the compiled code does not depend
+    # on the system); evaluating the others here would hand every run a process that has
+    # already seen them
     A = Rotation.random(4, random_state=1).as_matrix()
-    for s in geo.LatticeSystem:
-        try:
-            pdiag.misorientation_index(A, s)
-        except Exception:  # noqa: BLE001
-            pass
+    pdiag.misorientation_index(A, geo.LatticeSystem.orthorhombic)
+    pdiag.misorientation_index(A, geo.LatticeSystem.orthorhombic, 10)
 
 
 def coverage_floor(counters, n_done):
